@@ -18,7 +18,7 @@ from simkit.chooser import hash64
 PROP = "C13"
 LEVEL = "exploration"
 BUDGET = {"quick": 200, "thorough": 900}
-RULE = ("2-4 actors (reused Parser, fresh Parsers, FiltersSet editor incl. extension-bound tags such as :regex/:count/:value/"
+RULE = ("2-5 actors (reused Parser, fresh Parsers, a Parser constructed at one step and first used at a later one, FiltersSet editor incl. extension-bound tags such as :regex/:count/:value/"
         ":copy/:create/:flags, reloader = parse, then - other actors' calls later - from_parser_result + render), histories of 4-30 whole public calls (one run in sixteen: a marathon of 40-100 mostly failing parses on one reused Parser), the "
         "interleaving drawn by the scheduler; scripts from a pool of valid scripts with different require sets, invalid "
         "scripts of each error class, valid scripts truncated at a drawn byte (so that a parse ends mid-construct) valid scripts with one tag replaced by a tag borrowed from another command, and valid scripts with one structural character removed. "
@@ -165,6 +165,13 @@ class Actors:
             return _parse_outcome(self.reused, spec[1])
         if kind == "fresh":
             return _parse_outcome(Parser(), spec[1])
+        if kind == "early-make":
+            # a Parser object that is constructed now and first used only after other actors have had their turns
+            self.early = Parser()
+            return ("early-make",)
+        if kind == "early-use":
+            p, self.early = self.early, None
+            return _parse_outcome(p, spec[1])
         if kind == "reload-parse":
             # first half of a reload: parse and keep the Parser
             self.reload_parser = Parser()
@@ -340,8 +347,11 @@ def run(ch, config, res):
                 actors.append("reload")
             if wl.flag("editor2", 1, 4):
                 actors.append("editor1")
+            if wl.flag("early", 1, 3):
+                actors.append("early")
     plan = []
     reload_pending = [False]
+    early_pending = [False]
     for i in range(nsteps):
         with ch.scope("step#%d" % i):
             a = actors[ch.sched.int("actor", len(actors))]
@@ -352,6 +362,13 @@ def run(ch, config, res):
                 else:
                     plan.append(("reload-parse", draw_script(wl, "script", classes)))
                     reload_pending[0] = True
+            elif a == "early":
+                if early_pending[0]:
+                    plan.append(("early-use", draw_script(wl, "script", classes)))
+                    early_pending[0] = False
+                else:
+                    plan.append(("early-make",))
+                    early_pending[0] = True
             elif a in ("reused", "fresh"):
                 plan.append((a, draw_script(wl, "script", classes, marathon)))
             else:
@@ -395,11 +412,14 @@ def run(ch, config, res):
     for idx, spec in enumerate(plan):
         if failure is not None:
             break
-        if spec[0] in ("reused", "fresh"):
+        if spec[0] == "early-make":
+            continue
+        if spec[0] in ("reused", "fresh", "early-use"):
             base = parse_baseline(spec[1])
             if got[idx] != base:
+                who = {"reused": "reused", "fresh": "fresh", "early-use": "constructed-earlier"}[spec[0]]
                 failure = Failure(PROP, "C13.parse", "step %d (%s Parser, after %d other calls): parsing %r gave %r; alone in a pristine interpreter it gives %r" % (
-                    idx, spec[0], idx, spec[1], _short(got[idx]), _short(base)), {"step": idx})
+                    idx, who, idx, spec[1], _short(got[idx]), _short(base)), {"step": idx})
         elif spec[0] in ("reload-parse", "reload-load"):
             base = editor_base[idx]
             if got[idx] != base:
@@ -413,7 +433,7 @@ def run(ch, config, res):
                     idx, spec[2], idx, _short(got[idx]), _short(base)), {"step": idx})
     res.digest = "%016x" % hash64(repr(got))
     res.count("steps", len(plan))
-    pattern = "".join({"reused": "R", "fresh": "F", "reload-parse": "P", "reload-load": "L", "editor": "E"}[s[0]] for s in plan)
+    pattern = "".join({"reused": "R", "fresh": "F", "reload-parse": "P", "reload-load": "L", "editor": "E", "early-make": "M", "early-use": "U"}[s[0]] for s in plan)
     turns = sum(1 for i in range(1, len(pattern)) if pattern[i] != pattern[i - 1])
     if turns >= 1 and (classes & {"invalid", "truncated", "ext-bound-def", "tag-swapped", "char-dropped"}):
         res.sigs.add("%s|%s" % (pattern, ",".join(sorted(classes))))
